@@ -245,24 +245,47 @@ def inlined_view(prog, fn, depth=2, keep=()):
             for hd in getattr(st, 'handlers', []):
                 hd.body = splice(hd.body, level)
             c = st.value if isinstance(st, ast.Expr) and isinstance(st.value, ast.Call) else None
+            # `targets = helper(args)` where the helper computes its result in a body that ends in its only return
+            assign_to = None
+            if c is None and isinstance(st, ast.Assign) and len(st.targets) == 1 and isinstance(st.value, ast.Call):
+                c, assign_to = st.value, st.targets[0]
             h = None
-            if c is not None and not c.keywords and all(isinstance(a, (ast.Name, ast.Attribute, ast.Constant))
-                                                         for a in c.args):
+            if c is not None and all(k.arg is not None for k in c.keywords) and \
+                    all(isinstance(a, (ast.Name, ast.Attribute, ast.Constant))
+                        for a in list(c.args) + [k.value for k in c.keywords]):
                 if isinstance(c.func, ast.Name):
                     h = unit.get(c.func.id)
                 elif isinstance(c.func, ast.Attribute) and isinstance(c.func.value, ast.Name) and \
                         c.func.value.id in ('self', 'cls'):
                     h = unit.get(c.func.attr)
-            if h is None or h.name in fn.nested or h.name in keep or not void(h) or level <= 0:
+            single_ret = None
+            if h is not None and assign_to is not None:
+                rets_ = [x for x in walk_fn(h) if isinstance(x, ast.Return)]
+                if len(rets_) == 1 and h.node.body and h.node.body[-1] is rets_[0] and rets_[0].value is not None and \
+                        not any(isinstance(x, (ast.Yield, ast.YieldFrom)) for x in walk_fn(h)) and \
+                        not h.node.args.vararg and not h.node.args.kwarg and len(h.node.body) > 1:
+                    single_ret = rets_[0]
+                else:
+                    h = None
+            if h is None or h.name in fn.nested or h.name in keep or (single_ret is None and not void(h)) or \
+                    level <= 0:
                 res.append(st)
                 continue
             params = list(h.params)
             if params and params[0] in ('self', 'cls') and isinstance(c.func, ast.Attribute):
                 params = params[1:]
-            if len(params) != len(c.args):
+            sub = dict(zip(params, c.args))
+            sub.update({k.arg: k.value for k in c.keywords if k.arg in params})
+            # parameters left to their defaults take the default expression (constants only)
+            a_ = h.node.args
+            pos_ = [x.arg for x in a_.posonlyargs + a_.args]
+            for nm_, d_ in list(zip(pos_[len(pos_) - len(a_.defaults):], a_.defaults)) + \
+                    [(x.arg, d_) for x, d_ in zip(a_.kwonlyargs, a_.kw_defaults) if d_ is not None]:
+                if nm_ in params and nm_ not in sub and isinstance(d_, ast.Constant):
+                    sub[nm_] = d_
+            if set(sub) != set(params) or len(c.args) > len(params):
                 res.append(st)
                 continue
-            sub = dict(zip(params, c.args))
             # the helper's own locals keep their names unless the caller uses the same name for something else
             locs = ({t.id for x in walk_fn(h) for t in ast.walk(x) if isinstance(t, ast.Name) and
                      isinstance(t.ctx, ast.Store)} - set(sub)) & caller_names
@@ -271,20 +294,36 @@ def inlined_view(prog, fn, depth=2, keep=()):
                 def visit_Name(self, node):
                     if node.id in sub and isinstance(node.ctx, ast.Load):
                         return copy.deepcopy(sub[node.id])
+                    if node.id in sub and isinstance(sub[node.id], ast.Name):
+                        return ast.copy_location(ast.Name(id=sub[node.id].id, ctx=node.ctx), node)
                     if node.id in locs:
                         return ast.copy_location(ast.Name(id=f'_{h.name}__{node.id}', ctx=node.ctx), node)
                     return node
-            if any(isinstance(t, ast.Name) and isinstance(t.ctx, ast.Store) and t.id in sub
+            # a helper that re-binds a parameter is kept as a call - except for augmented assignments (`acc |= x`)
+            # to a parameter whose argument is a plain name: on the sets / lists this code base threads through, that
+            # is the in-place update the caller sees, and it reads the same when spliced in
+            aug = {id(x.target) for x in walk_fn(h) if isinstance(x, ast.AugAssign) and isinstance(x.target, ast.Name)
+                   and isinstance(sub.get(x.target.id), ast.Name)}
+            if any(isinstance(t, ast.Name) and isinstance(t.ctx, ast.Store) and t.id in sub and id(t) not in aug
                    for x in walk_fn(h) for t in ast.walk(x)):
-                res.append(st)      # the helper assigns a parameter: keep the call
+                res.append(st)
                 continue
             body = [s_ for s_ in copy.deepcopy(h.node.body)
                     if not (isinstance(s_, ast.Expr) and isinstance(s_.value, ast.Constant))]
-            body = elim(body)
+            tail_assign = None
+            if single_ret is not None:
+                # body without its final return, followed by `targets = <returned expression>`
+                last = body.pop()
+                tail_assign = ast.copy_location(
+                    ast.Assign(targets=[copy.deepcopy(assign_to)], value=S().visit(last.value)), st)
+            else:
+                body = elim(body)
             if body is None:
                 res.append(st)
                 continue
             body = [S().visit(s_) for s_ in body]
+            if tail_assign is not None:
+                body.append(tail_assign)
             for s_ in body:
                 for x in ast.walk(s_):
                     if hasattr(x, 'lineno'):
